@@ -223,4 +223,12 @@ impl Transport for TransportRouter {
             TransportRouter::S3(t) => t.create_symlink(target, dest).await,
         }
     }
+
+    async fn read_link(&self, path: &Path) -> Result<Option<std::path::PathBuf>> {
+        match self {
+            TransportRouter::Local(t) => t.read_link(path).await,
+            TransportRouter::Dual(t) => t.read_link(path).await,
+            TransportRouter::S3(t) => t.read_link(path).await,
+        }
+    }
 }
